@@ -203,6 +203,7 @@ func (s *Runner) RunOnRange(ctx context.Context, startKey, endKey []byte) error 
 
 	// Iterate all regions and send each region's range as a task to the workers.
 	key := startKey
+	canceled := false
 Loop:
 	for {
 		select {
@@ -246,6 +247,9 @@ Loop:
 		select {
 		case taskCh <- task:
 		case <-ctx.Done():
+			// The rest of the range is not going to be handed out. If this is because a worker failed, that
+			// worker's error is reported below; if the caller's context is done, no worker may have noticed.
+			canceled = true
 			break Loop
 		}
 		metrics.TiKVRangeTaskPushDuration.WithLabelValues(s.name).Observe(time.Since(pushTaskStartTime).Seconds())
@@ -272,6 +276,23 @@ Loop:
 				zap.Error(w.err))
 			return errors.WithStack(w.err)
 		}
+	}
+
+	if canceled {
+		// The dispatching stopped before the end of the range and no worker reported an error: the context was
+		// done while every worker was idle or inside a handler that finished normally. The range is not covered.
+		err := ctx.Err()
+		if err == nil {
+			err = context.Canceled
+		}
+		logutil.Logger(ctx).Info("range task canceled",
+			zap.String("name", s.identifier),
+			zap.String("startKey", redact.Key(startKey)),
+			zap.String("endKey", redact.Key(endKey)),
+			zap.Duration("cost time", time.Since(startTime)),
+			zap.Int("completed regions", s.CompletedRegions()),
+			zap.Error(err))
+		return errors.WithStack(err)
 	}
 
 	logutil.Logger(ctx).Info("range task finished",
